@@ -281,3 +281,15 @@ def aggregate(results):
     if r.get("violation"):
       viol.append(r)
   return cov, shapes, nontriv_shapes, inconc, herr, viol
+
+
+def fresh_eval(pid, plan, hashseed="31337"):
+  """Run prop.fresh_eval(plan) in a fresh interpreter with another hash seed
+  and a virgin global RNG; returns its JSON result (or raises)."""
+  env = dict(os.environ)
+  env["PYTHONHASHSEED"] = hashseed
+  p = subprocess.run([sys.executable, "-m", "mlsim.fresheval", pid], cwd=VERIF, env=env,
+                     input=json.dumps(plan), capture_output=True, text=True, timeout=120)
+  if p.returncode != 0:
+    raise RuntimeError("fresh interpreter failed: " + (p.stderr or "")[-400:])
+  return json.loads(p.stdout.strip().splitlines()[-1])
